@@ -34,6 +34,9 @@ MCNext ==
     \/ \E v \in VaaUniverse : (v.id \in DOMAIN written \/ Cardinality(DOMAIN written) < MaxIds) /\ Store(v)
     \/ /\ WithQueries
        /\ \/ \E i \in IdUniverse : Get(i)
+          \/ \E st \in StreamUniverse, q \in QSets, t \in Tags :
+                /\ Cardinality(DOMAIN written \cup {IdOf(st, x) : x \in q}) <= MaxIds
+                /\ StoreRun(st, q, t)
           \/ \E st \in StreamUniverse : Gap(st)
           \/ \E st \in StreamUniverse, failed \in BOOLEAN :
                 \E fills \in {{}} \cup {{v} : v \in {x \in VaaUniverse : Stream(x.id) = st}} :
@@ -45,6 +48,8 @@ MCNext ==
        /\ \/ \E i \in DOMAIN vaas : vaas[i] \in SetAt(pending, i) /\ Ack(i)
           \/ \E f \in CrashChoices : CrashTo(f)
           \/ Reopen
+          \/ OpenBegin
+          \/ OpenEnd
           \/ Close
           \/ \E v \in VaaUniverse, a \in BOOLEAN :
                 (v.id \in DOMAIN written \/ Cardinality(DOMAIN written) < MaxIds) /\ StoreWhileClosed(v, a)
@@ -52,7 +57,7 @@ MCNext ==
 
 MCSpec == Init /\ [][MCNext]_vars
 
-View == <<vaas, up, acked, pending, written>>
+View == <<vaas, up, opening, acked, pending, written>>
 
 \* ---- C12: the refinement lemmas over the whole universe, in every reachable store
 GetExact == GetExactOn(IdUniverse)
